@@ -2,7 +2,25 @@ use clvm_verif_harness::*;
 use std::io::{BufRead, Write};
 
 fn main() {
-    std::panic::set_hook(Box::new(|_| {}));
+    // panics are caught per case (catch_unwind); keep the last message so that a panic which escapes
+    // a component (a harness generator or oracle running into changed library behaviour) is reported
+    // with its location instead of silently
+    std::panic::set_hook(Box::new(|info| {
+        if let Ok(mut g) = LAST_PANIC.lock() {
+            *g = info.to_string();
+        }
+    }));
+    let r = std::panic::catch_unwind(real_main);
+    if r.is_err() {
+        let msg = LAST_PANIC.lock().map(|g| g.clone()).unwrap_or_default().replace('\n', " ");
+        println!("FAIL harness_panic {}", msg);
+        std::process::exit(101);
+    }
+}
+
+static LAST_PANIC: std::sync::Mutex<String> = std::sync::Mutex::new(String::new());
+
+fn real_main() {
     let args: Vec<String> = std::env::args().collect();
     match args[1].as_str() {
         "gen" => {
